@@ -12,6 +12,8 @@ def _blocks(i):
 
 
 def c04_nontrivial(c, i):
+    if c[0] in ("c04.run", "c02.run"):
+        return any(t.startswith("fin:") for t in i)
     if c[0] == "c04.pool":
         # some reader had to wait (slow path reached) or stood at the gate
         return "wait" in i or "gate" in i
@@ -20,6 +22,12 @@ def c04_nontrivial(c, i):
 
 def c04_classify(c, i):
     out = [c[0]]
+    if c[0] in ("c04.run", "c02.run"):
+        out.append("pipeline-procs=" + c[1])
+        if any(t.startswith("tmo:") for t in i): out.append("stream-timeout")
+        if any(t.startswith("fin:") and t.endswith(":0") for t in i): out.append("hold")
+        out.append("end=" + (i[-1] if i else "none"))
+        return out
     if c[0] == "c04.pool":
         out.append("pool=" + c[1])
         out.append("cap=" + (c[2] if int(c[2]) < 4 else "4+"))
@@ -49,7 +57,8 @@ CFG = {
     "trace": True,
     "nontrivial": c04_nontrivial,
     "classify": c04_classify,
-    "chunk": 400,
+    "parallel": 8,
+    "chunk": 4000,
     "timeout": 1200,
     "widen_seeds": 1,
     "widen_cases": 600,
